@@ -28,6 +28,7 @@ CONSTANTS
   FailSaves = TRUE
   Focus = TRUE
   Record = FALSE
+  Scrapes = FALSE
   Marking = TRUE
   WindAt = 0
   Gaps = {}
